@@ -98,8 +98,26 @@ Definition separatedb (st : stack) (c : cell) (l : Z) (m : metal) (k : Z) : bool
              seps) asg) asg
   && forallb (fun a => forallb (fun b => (fst a =? fst b) || negb (snd a =? snd b)) asg) asg.
 
+(** clearance of a crossing ON THE INTEGER GRID (added 2026-10-01, coordinator decision, DESIGN.md sections 4 and 9):
+    `center` rounds the centre of a track of ODD width down, so the point the exporter works with is
+    (c2 - 1) / 2 when the doubled crossing coordinate c2 is odd.  An assignment whose rounded crossing
+    sits on the end of a cut / blocked span of the track (or on the far outline edge) asks for a via that
+    touches the cut / instance area: it is outside the property's well-formed space, exactly like the
+    exact-boundary case excluded below.  Vacuous when c2 is even (all ends are even once doubled). *)
+Definition clear1 (st : stack) (c : cell) (l : Z) (m : metal) (k c2 : Z) : bool :=
+  negb (existsb (Z.eqb (c2 - 1)) (boundaries2 st c l m k)) && negb (c2 - 1 =? 2 * along_len st c m).
+Definition crossing_clearb (st : stack) (c : cell) (a : Z * cross) : bool :=
+  match assign_bt a with
+  | Some (_, b, t) =>
+    match metal_of st (fst b), metal_of st (fst t), cross2 st (fst t) (snd t), cross2 st (fst b) (snd b) with
+    | Some mb, Some mt, Some cb2, Some ct2 => clear1 st c (fst b) mb (snd b) cb2 && clear1 st c (fst t) mt (snd t) ct2
+    | _, _, _, _ => false
+    end
+  | None => false
+  end.
+
 Definition assign_wfb (st : stack) (c : cell) (a : Z * cross) : bool :=
-  (0 <? fst a) &&
+  (0 <? fst a) && crossing_clearb st c a &&
   match assign_bt a with
   | Some (_, b, t) =>
     (fst t <? c_metals c) && dir_differs st (fst b) (fst t) &&
